@@ -10,7 +10,7 @@ What is transcribed (file.rs:line ↔ definition):
   lib.rs:54-76 `unwrap_or_ret!` (+ `_err_code`, `_null`) ↔ `saveLastError` + the failure value of each shape
   lib.rs:78-98 `catch_panic`                       ↔ `R.new` / `R.step` return `Except Msg` (a panic is an `Err`)
   lib.rs:100-212 `impl_content_mutation_handlers!` ↔ `COp.infallible` / `.streaming` / `.void` / `.boolGet` / `.rawGet`
-  lib.rs:214-252 `content_insertion_fn_body!`      ↔ `cUnitOp` cases `.infallible` and `.streaming`
+  lib.rs:214-258 `content_insertion_fn_body!`      ↔ `cUnitOp` cases `.infallible` and `.streaming`
   errors.rs:3-27 `LAST_ERROR`, `take_last_error`, `save_last_error` ↔ `Env.lastErr`, `takeLastError`, `saveLastError`
   string.rs `Str::new/from_opt/Drop`, `lol_html_str_free` ↔ `allocStr`, `strFree`
   rewriter.rs:15 `HtmlRewriter(Option<…>)`, `write/end/free` ↔ `Payload.rewriter`, `cWrite`, `cEnd`, `rewriterFree`
@@ -70,6 +70,7 @@ inductive ErrMsg
   | nonAsciiEncoding              -- lib.rs:285
   | stopped                       -- rewriter_builder.rs:45 / element.rs:333
   | noEndTag                      -- element.rs:327
+  | uninitialized                 -- errors.rs:25 `CStreamingHandlerError::Uninitialized` (lib.rs:236-247)
   deriving DecidableEq, Repr
 
 /-! ## The abstract Rust API `R` -/
@@ -520,18 +521,20 @@ def cUnitOp (pol : Policy) (t : Tid) (s : HState R) : COp → Res (HState R)
     pure { s with env := s.env.out .void }
   | .streaming f h =>
     match h with
-    | .null => pure { s with env := s.env.out (.code (-1)) }               -- lib.rs:236 (LAST_ERROR untouched)
+    | .null =>
+      -- lib.rs:236-241 NULL handler: `save_last_error(Uninitialized)`, `return -1`
+      pure { s with env := (saveLastError s.env t .uninitialized).out (.code (-1)) }
     | .mk reservedNull hasWriteAll hasDrop script =>
       if !reservedNull then
-        -- lib.rs:236 "*Always* initialize to NULL": `return -1` before the struct is copied; the
-        -- caller keeps ownership, `drop_callback` is not called, LAST_ERROR untouched
-        pure { s with env := s.env.out (.code (-1)) }
+        -- lib.rs:236 "*Always* initialize to NULL": same path, before the struct is copied; the
+        -- caller keeps ownership, `drop_callback` is not called
+        pure { s with env := (saveLastError s.env t .uninitialized).out (.code (-1)) }
       else
-        -- lib.rs:241 the struct is copied into a box: the library owns it from here on
+        -- lib.rs:244 the struct is copied into a box: the library owns it from here on
         let (env, sid) := alloc s.env (.shandler script hasDrop)
         if !hasWriteAll then do
-          -- lib.rs:242 `return -1`: the box is dropped on the way out
-          let env ← releaseHandler env sid
+          -- lib.rs:245-249 `save_last_error(Uninitialized)`, `return -1`: the box is dropped on the way out
+          let env ← releaseHandler (saveLastError env t .uninitialized) sid
           pure { s with env := env.out (.code (-1)) }
         else do
           let (s, _) ← callR pol { s with env := env } (.streaming f sid)
